@@ -137,6 +137,7 @@ def replay(item):
 
     e = env()
     tool, ccls, scls, prof, flags = case["tool"], case["content"], case["schema"], case["profile"], set(case["flags"])
+    prof = {"lower": prof.lower(), "title": prof.title()}.get(case.get("spell", "upper"), prof)     # the spelling the client used
     schema = schema_arg(scls)
     content = content_for(ccls, scls)
     obs = {"status": "MISSING", "valid": "-", "nerrors": 0, "has_name": False, "has_version": False, "again": "-", "exit": 9, "raised": "-"}
